@@ -196,6 +196,20 @@ static void fatalHandler(int sig, siginfo_t* si, void* uc) {
 	_exit(inApi ? 3 : 2);
 }
 
+// async-signal-safe: appends a violation record for the case in progress
+void signalSafeViolation(const char* key) {
+	static char line[sizeof(g_caseBuf) + 512];
+	size_t p = 0;
+	p = appendStr(line, p, sizeof line, "{\"type\":\"violation\",\"key\":\"");
+	p = appendStr(line, p, sizeof line, key);
+	p = appendStr(line, p, sizeof line, "\",\"replay\":{\"sub\":\"");
+	p = appendStr(line, p, sizeof line, g_subName);
+	p = appendStr(line, p, sizeof line, "\",\"case\":");
+	if (g_caseLen && p + g_caseLen + 8 < sizeof line) { memcpy(line + p, g_caseBuf, g_caseLen); p += g_caseLen; } else p = appendStr(line, p, sizeof line, "null");
+	p = appendStr(line, p, sizeof line, "}}\n");
+	if (R.fd >= 0) writeAll(R.fd, line, p);
+}
+
 #if defined(__SANITIZE_ADDRESS__)
 // ASan calls this before printing a report: attribute the report to the case in progress
 extern "C" void __asan_on_error() {
